@@ -424,3 +424,33 @@ Qed.
 Theorem op_subtract_fast_eq f i m : rinput_ok i = true ->
   op_subtract_fast f i m = op_subtract f (denote_input i) m.
 Proof. intros Hok. rewrite (op_subtract_fast_nofast f i m Hok). apply op_subtract_nofast_eq. exact Hok. Qed.
+
+(* ---------------------------------------------------------------- result nodes *)
+(* the result node: new_u64 / new_i64 of the fast paths and new_number of the generic path leave
+   the allocator in the same state (same counters, same inline/heap choice) *)
+Lemma new_u64_is_new_number a v : u8_len a <= U32_MAX -> v < 2 ^ 64 ->
+  new_u64 a v = new_number a (Z.of_N v).
+Proof.
+  intros Hu Hv. unfold new_u64, new_number. rewrite (u64_bytes_spec v Hv).
+  destruct ((0 <=? Z.of_N v)%Z && (Z.of_N v <=? Z.of_N NODE_PTR_IDX_MASK)%Z) eqn:E.
+  - apply andb_prop in E. destruct E as [_ E]. rewrite N2Z.id.
+    assert (v <= NODE_PTR_IDX_MASK) as Hm by lia.
+    unfold new_atom, new_small_number. rewrite (fits_small_roundtrip v Hm).
+    assert (v < 2 ^ 26) as H26 by (unfold NODE_PTR_IDX_MASK in Hm; change (2 ^ 26) with 67108864; lia).
+    rewrite (blen_small v H26).
+    replace (NODE_PTR_IDX_MASK <? v) with false by lia.
+    replace (u32 (u8_len a)) with (u8_len a) by (unfold u32, U32_MAX in *; lia).
+    reflexivity.
+  - rewrite strip_to_signed. reflexivity.
+Qed.
+
+Lemma new_i64_is_new_number a z : u8_len a <= U32_MAX -> (- 2 ^ 63 <= z < 2 ^ 63)%Z ->
+  new_i64 a z = new_number a z.
+Proof.
+  intros Hu Hz. destruct (Z.leb_spec 0 z) as [Hp|Hn].
+  - rewrite <- (Z2N.id z Hp) at 2. rewrite <- new_u64_is_new_number; [|exact Hu|].
+    + unfold new_i64, new_u64, i64_bytes. destruct (Z.leb_spec 0 z); [reflexivity|lia].
+    + change (2 ^ 64) with 18446744073709551616. change (2 ^ 63)%Z with 9223372036854775808%Z in Hz. lia.
+  - unfold new_i64, new_number. rewrite (i64_bytes_spec z Hz).
+    destruct (Z.leb_spec 0 z); [lia|]. cbn [andb]. rewrite strip_to_signed. reflexivity.
+Qed.
